@@ -65,6 +65,7 @@ ASTNode *ExpressionParser::parseExpression() { return parseAssignment(); }
  * 例: a += 5  →  a = a + 5
  */
 ASTNode *ExpressionParser::parseAssignment() {
+    parser_->checkNesting();
     ASTNode *left = parseTernary();
 
     auto getBinaryOpForCompound = [](TokenType op_type) -> std::string {
@@ -542,6 +543,7 @@ ASTNode *ExpressionParser::parseMultiplicative() {
  * - ++, -- (前置インクリメント・デクリメント)
  */
 ASTNode *ExpressionParser::parseUnary() {
+    parser_->checkNesting();
     // v0.12.0: await式のパース
     if (parser_->check(TokenType::TOK_AWAIT)) {
         parser_->advance(); // consume 'await'
